@@ -11,3 +11,6 @@ import Peppi.Props.C18
 #print axioms Peppi.Props.C18.tarArchive_length_ge
 #print axioms Peppi.Props.C18.tarScan_cut
 #print axioms Peppi.Props.C18.slppReadL_written
+#print axioms Peppi.Props.C18.decPeppiJ_enc
+#print axioms Peppi.Props.C18.decPeppiJ_encV
+#print axioms Peppi.Props.C18.slppRead_written_json2
